@@ -709,7 +709,7 @@ func (dm *DagModifier) Seek(offset int64, whence int) (int64, error) {
 	case io.SeekStart:
 		newoffset = uint64(offset)
 	case io.SeekEnd:
-		newoffset = uint64(fisize) - uint64(offset)
+		newoffset = uint64(fisize) + uint64(offset)
 	default:
 		return 0, ErrUnrecognizedWhence
 	}
